@@ -120,7 +120,9 @@ def build_job(prop, tier, seed, n_episodes, grammars, steps=(12, 30), vocab_choi
         canonical = rng.choice([0, 1])
         vc = rng.choice(vocab_choices)
         voc = vocab_for(rng, g, vc, canonical)
-        if prop in MULTI_EOS and rng.random() < 0.25:
+        # (never for grammars that refer to tokens by number: a range could name the extra EOS, and a grammar-named EOS
+        #  is the corner in which C01's EOS clause and C19's range clause contradict each other)
+        if prop in MULTI_EOS and "<[" not in gram_text(g) and rng.random() < 0.25:
             # several end-of-sequence tokens (TokTrie::with_eos_tokens): special tokens the grammar does not name
             names = [nm for nm in ("<|user|>", "<|tool|>", "<a>") if nm not in gram_text(g)]
             if names:
